@@ -17,6 +17,18 @@ IMPL = "swcgeom.core.tree_utils_impl"
 TU = "swcgeom.core.tree_utils"
 
 
+def _fixed_columns(e) -> bool:
+    """the iterated keys are a fixed list of the standard SWC columns (`names.cols()`, a literal list of names): provably not the
+    source's own key set, whatever else the function does"""
+    if isinstance(e, (ast.List, ast.Tuple)):
+        return True
+    if isinstance(e, ast.Call) and isinstance(e.func, ast.Attribute) and e.func.attr == "cols" and not e.args:
+        return True
+    if isinstance(e, ast.BinOp) and isinstance(e.op, ast.Add):
+        return _fixed_columns(e.left) and _fixed_columns(e.right)
+    return False
+
+
 def gather_rule(ctx, col, d, src_name, keys_exprs, what):
     """`(new_id, new_pid), mapping = to_sub_topology(..)`;
     `ndata = {k: SRC.get_ndata(k)[mapping].copy() for k in SRC.keys()}`; update(id=, pid=)."""
@@ -34,7 +46,7 @@ def gather_rule(ctx, col, d, src_name, keys_exprs, what):
     col.check(iter_ok, "R-UNIF", d.qualname, d.loc(dc), f"{what}: gather covers the source's whole key set",
               norm_src(g.iter), f"gather iterates `{norm_src(g.iter)}`"
               + (" with a filter" if g.ifs else "") + f", not every key of the source ({keys_exprs[0]}): "
-              "extra columns / attributes would be dropped", stmt="gather-keys")
+              "extra columns / attributes would be dropped", stmt="gather-keys", definite=_fixed_columns(g.iter) or bool(g.ifs))
     idx = [s for s in ast.walk(dc.value) if isinstance(s, ast.Subscript)
            and isinstance(s.value, ast.Call) and isinstance(s.value.func, ast.Attribute)
            and s.value.func.attr == "get_ndata"]
